@@ -25,6 +25,10 @@
  *   I <thread> <event> <args>        an operation performed inline (not a scheduling point)
  *   C <choice tokens>                the schedule actually taken (replayable: strategy list)
  *   M status=... peak=... ...        monitors, computed here, independent of any model
+ *   K <kind>:<hex offset> ...        the distinct CALL SITES (return address minus __executable_start) from which
+ *                                    pthread_cond_wait / _signal / _broadcast and pthread_create were called in
+ *                                    this run; vlib/sched.py compares them with the call sites that exist in the
+ *                                    object code of dsh.c (a site no run ever reaches is reported)
  */
 #define _GNU_SOURCE
 #include <errno.h>
@@ -364,9 +368,25 @@ static void take(const char *tok)
     taken[taken_len] = 0;
 }
 
+/* call sites of the protocol operations seen in this run */
+extern char __executable_start;
+static struct { const char *kind; void *ret; } sites[64];
+static int nsites;
+static void site_note(const char *kind, void *ret)
+{
+    int i;
+    for (i = 0; i < nsites; i++)
+        if (sites[i].ret == ret) return;
+    if (nsites < 64) { sites[nsites].kind = kind; sites[nsites].ret = ret; nsites++; }
+}
+
 static void finish(const char *status, int code)
 {
     int i;
+    fprintf(stdout, "K");
+    for (i = 0; i < nsites; i++)
+        fprintf(stdout, " %s:%lx", sites[i].kind, (unsigned long) ((char *) sites[i].ret - &__executable_start));
+    fprintf(stdout, "\n");
     fprintf(stdout, "C %s\n", taken ? taken : "");
     fprintf(stdout, "M status=%s code=%d fanout=%d n=%d peak=%d peak_step=%d early=%d steps=%ld spurious=%ld "
             "diverged=%d tc=%d clock=%ld connects=", status, code, fanout, nvhosts, peak, peak_step,
@@ -939,6 +959,7 @@ int __wrap_pthread_create(pthread_t *thr, const pthread_attr_t *attr, void *(*fn
     int k = verif_fn_kind(fn);
     struct op o = { .kind = OP_CREATE, .cls = (k == 1 || k == 4) ? Y_FAN : Y_SIG, .obj = thr, .fn = fn, .arg = arg };
     (void) attr;
+    site_note("create", __builtin_return_address(0));
     return (int) sched_do(o)->ret;
 }
 int __wrap_pthread_mutex_lock(pthread_mutex_t *m)
@@ -961,16 +982,19 @@ int __wrap_pthread_mutex_unlock(pthread_mutex_t *m)
 int __wrap_pthread_cond_wait(pthread_cond_t *c, pthread_mutex_t *m)
 {
     struct op o = { .kind = OP_WAIT, .cls = mutex_of(m)->cls, .obj = c, .obj2 = m };
+    site_note("wait", __builtin_return_address(0));
     return (int) sched_do(o)->ret;
 }
 int __wrap_pthread_cond_signal(pthread_cond_t *c)
 {
     struct op o = { .kind = OP_SIGNAL, .cls = c == verif_tc_cond() ? Y_FAN : Y_MISC, .obj = c };
+    site_note("signal", __builtin_return_address(0));
     return (int) sched_do(o)->ret;
 }
 int __wrap_pthread_cond_broadcast(pthread_cond_t *c)
 {
     struct op o = { .kind = OP_BCAST, .cls = c == verif_tc_cond() ? Y_FAN : Y_MISC, .obj = c };
+    site_note("broadcast", __builtin_return_address(0));
     return (int) sched_do(o)->ret;
 }
 int __wrap_pthread_kill(pthread_t p, int sig)
